@@ -46,7 +46,7 @@ git -C /repo worktree remove --force "$wt"
 chk_rc=-1; chk_out=""
 if [ $applies -eq 0 ] && git -C /repo apply --check "$out/patch.diff" 2>/dev/null; then
   git -C /repo apply "$out/patch.diff"
-  chk_out=$(cd /verif && ./check "$id" 2>&1); chk_rc=$?
+  chk_out=$(cd /verif && VERIF_NO_EVIDENCE=1 ./check "$id" 2>&1); chk_rc=$?
   git -C /repo apply -R "$out/patch.diff"
 fi
 python3 - "$id" "$m" "$demo_clean" "$applies" "$builds" "$suite" "$demo_patched" "$chk_rc" "$name" <<EOF
